@@ -274,9 +274,9 @@ func c04Fold(c *Ctx, rule string, t *types.Named, adj *ssa.Function, cnt []strin
 	ok := sumFirst != nil && rFrom != nil
 	found := "no fold loop / reset call found"
 	if ok {
-		off := mk("field", "offset", nil, mk("field", cnt[0], nil, mk("param", "0", nil)))
+		off := mk("field", dr.offset, nil, mk("field", cnt[0], nil, mk("param", "0", nil)))
 		if len(cnt) == 1 {
-			off = mk("field", "offset", nil, mk("param", "0", nil))
+			off = mk("field", dr.offset, nil, mk("param", "0", nil))
 		}
 		wantFirst := linCombine(linearOf(rFrom), linearOf(off), -1)
 		wantLast := linCombine(linearOf(rTo), linearOf(off), -1)
@@ -583,7 +583,7 @@ func c04Windows(c *Ctx) {
 					for _, in := range b.Instrs {
 						if ia, ok := in.(*ssa.IndexAddr); ok {
 							x := tc.Of(ia.X)
-							if x.Op == "field" && x.Sym == "bins" {
+							if x.Op == "field" && x.Sym == dr.bins {
 								elem = tc.Of(ia.Index)
 							}
 						}
